@@ -608,6 +608,72 @@ def typed_decoder(src, kind):
     return em.blk(parse_body(body))
 
 
+def unknown_attributes_decoder(src):
+    """UnknownAttributes: no range guard; the `for` over `chunks_exact(2)` becomes a fold whose step is the loop body"""
+    kind, file = "UnknownAttributes", "error.rs"
+    txt = src.get(TYPED_DIR + file)
+    imp = fn_body(txt, r"impl(?:\s*<[^>]*>)?\s+TryFrom\s*<\s*&\s*RawAttribute(?:\s*<[^>]*>)?\s*>\s+for\s+" + kind + r"\s*\{")
+    body = fn_body(imp or "", r"fn\s+try_from\s*\(\s*raw\s*:\s*&RawAttribute\s*\)\s*->\s*Result<Self,\s*Self::Error>\s*\{")
+    if body is None:
+        raise XlateError("TryFrom<&RawAttribute> for UnknownAttributes not found")
+    code = type_code(src, kind, file)
+    exprs = [("raw.header.atype", "raw.ty"), ("Self::TYPE", code), ("vec![]", "([] : List Nat)"),
+             ("Ok(Self { attributes: attrs })", "(Except.ok (AttrVal.unknownAttributes attrs))")] + RAWVAL_EXPRS + PERR_EXPRS
+    em = Emitter(exprs=exprs, state=None, ret="{v}", locals_=["raw"])
+
+    def on_for(stmt, rest):
+        from rustmini import parse_expr, match
+        _, pat, it, fbody = stmt
+        if pat != ("pbind", "attr") or not match(parse_expr("raw.value.chunks_exact(2)"), it, {}) or "attrs" not in em.locals:
+            raise XlateError("UnknownAttributes: loop header shape")
+        eb = Emitter(exprs=[("BigEndian::read_u16(attr).into()", "(beNat (List.take 2 attr))")], stmts=[("attrs.push($x)", "(attrs ++ [$x])")],
+                     state="attrs", ret="{s}", locals_=["attr", "attrs"])
+        step = eb.blk(list(fbody))
+        return f"let attrs := (chunksExact2 raw.value).foldl (fun attrs attr => {step}) attrs; {em.blk(list(rest))}"
+    em.on_for = on_for
+    return em.blk(parse_body(body))
+
+
+def password_algorithms_decoder(src):
+    """PasswordAlgorithms: guard, then the `while i < raw.value.len()` walk over the entries -> a fuel-recursive function"""
+    kind, file = "PasswordAlgorithms", "password_algorithm.rs"
+    txt = src.get(TYPED_DIR + file)
+    imp = fn_body(txt, r"impl(?:\s*<[^>]*>)?\s+TryFrom\s*<\s*&\s*RawAttribute(?:\s*<[^>]*>)?\s*>\s+for\s+" + kind + r"\s*\{")
+    body = fn_body(imp or "", r"fn\s+try_from\s*\(\s*raw\s*:\s*&RawAttribute\s*\)\s*->\s*Result<Self,\s*Self::Error>\s*\{")
+    if body is None:
+        raise XlateError("TryFrom<&RawAttribute> for PasswordAlgorithms not found")
+    pw_value_shapes(src)
+    code = type_code(src, kind, file)
+    exprs = [("raw.check_type_and_len(Self::TYPE, $lo..)", f"(checkTypeAndLen raw {code} (Bound.included $lo) Bound.unbounded)"),
+             ("PasswordAlgorithmValue::read($d)", "(pwAlgoValueRead $d)"), ("algo.len() as usize", "pwAlgoValueLen"),
+             ("vec![]", "([] : List Nat)"), ("Ok(Self { algorithms })", "(Except.ok (AttrVal.passwordAlgorithms algorithms))")] + RAWVAL_EXPRS + PERR_EXPRS
+    stmts = [("algorithms.push($x)", ("algorithms", "(algorithms ++ [$x])"))]
+    out = {}
+
+    def mk(locals_):
+        return Emitter(exprs=exprs, stmts=stmts, state=None, ret="{v}", locals_=locals_)
+    em = mk(["raw"])
+
+    def on_while(stmt, rest):
+        _, cond, wbody = stmt
+        missing = [v for v in ("i", "algorithms") if v not in em.locals]
+        if missing:
+            raise XlateError(f"PasswordAlgorithms: loop variables not declared before the loop: {missing}")
+        eb = mk(list(em.locals))
+        eb.on_end = eb.on_continue = "pwAlgosWalk raw __fuel i algorithms"
+        body_l = eb.blk(list(wbody))
+        ea = mk(list(em.locals))
+        after_l = ea.blk(list(rest))
+        out["loop"] = ("match __f with\n  | 0 => Except.error (PErr.fault Fault.hang)\n  | __fuel + 1 => "
+                       f"(if {eb.tx(cond, 'c')} then {body_l} else {after_l})")
+        return "pwAlgosWalk raw (raw.value.length + 1) i algorithms"
+    em.on_while = on_while
+    out["entry"] = em.blk(parse_body(body))
+    if "loop" not in out:
+        raise XlateError("PasswordAlgorithms: no while loop found")
+    return out
+
+
 def pw_value_shapes(src):
     txt = src.get(TYPED_DIR + "password_algorithm.rs")
     imp = impl_body(txt, r"impl\s+PasswordAlgorithmValue\s*\{")
@@ -771,6 +837,16 @@ def items(src):
     yield ("FnTyped", "pwAlgoValueRead", "(data : Bytes) : Except PErr Nat", lambda: pw_value_read(src), None)
     for kind in TYPED_KINDS:
         yield ("FnTyped", "fromRaw" + kind, "(raw : RawAttr) : Except PErr AttrVal", (lambda k: (lambda: typed_decoder(src, k)))(kind), None)
+    yield ("FnTyped", "fromRawUnknownAttributes", "(raw : RawAttr) : Except PErr AttrVal", lambda: unknown_attributes_decoder(src), None)
+    pwa = {}
+    def pwa_part(k):
+        def f():
+            if not pwa:
+                pwa.update(password_algorithms_decoder(src))
+            return pwa[k]
+        return f
+    yield ("FnTyped", "pwAlgosWalk", "(raw : RawAttr) (__f : Nat) (i : Nat) (algorithms : List Nat) : Except PErr AttrVal", pwa_part("loop"), None)
+    yield ("FnTyped", "fromRawPasswordAlgorithms", "(raw : RawAttr) : Except PErr AttrVal", pwa_part("entry"), None)
     yield ("FnMsg", "attrHeaderParse", "(data : Bytes) : Except PErr (Nat × Nat)", lambda: decoder(src, "attr_header"), None)
     yield ("FnMsg", "rawFromBytes", "(data : Bytes) : Except PErr RawAttr", lambda: decoder(src, "raw"), None)
     yield ("FnMsg", "msgTypeFromBytes", "(data : Bytes) : Except PErr Nat", lambda: decoder(src, "mtype"), None)
@@ -809,7 +885,8 @@ HEADERS = {
     "FnAgent": ["import StunVerif.Agent.Agent", "namespace StunVerif.Gen", "open StunVerif StunVerif.Agent", ""],
     "FnAttr": ["import StunVerif.Attr.Bound", "namespace StunVerif.Gen", "open StunVerif", ""],
     "FnTyped": ["import StunVerif.Attr.Typed", "import StunVerif.Attr.Bound", "import StunVerif.Gen.FnAttr", "import StunVerif.Gen.Attr", "import StunVerif.Gen.Xor",
-                "namespace StunVerif.Gen", "open StunVerif", "", "/-- `PasswordAlgorithmValue::len` (checked to be the constant 0 in the source) -/", "def pwAlgoValueLen : Nat := 0", ""],
+                "namespace StunVerif.Gen", "open StunVerif", "", "/-- `PasswordAlgorithmValue::len` (checked to be the constant 0 in the source) -/", "def pwAlgoValueLen : Nat := 0", "",
+                "/-- `slice::chunks_exact(2)` -/", "def chunksExact2 : Bytes → List Bytes", "  | a :: b :: rest => [a, b] :: chunksExact2 rest", "  | _ => []", ""],
     "FnMsg": ["import StunVerif.Msg.IterState", "import StunVerif.Gen.MsgType", "namespace StunVerif.Gen", "open StunVerif", ""],
     "FnBuilder": ["import StunVerif.Msg.Builder", "namespace StunVerif.Gen", "open StunVerif", ""],
     "FnIntegrity": ["import StunVerif.Msg.ValidateLeaves", "import StunVerif.Gen.MsgType", "namespace StunVerif.Gen", "open StunVerif", ""],
